@@ -27,6 +27,10 @@ type Case struct {
 	Cut int `json:"cut"`
 	// WrongType != 0: the type field is overwritten with this value; the decoder of Msg.Type must reject it.
 	WrongType int `json:"wrong_type"`
+	// Prefix >= 0 (with RawPrefix set): the complete frame is cut to its first Prefix bytes (no CRC fix-up)
+	// and handed to the typed decoder, which must reject it.
+	RawPrefix bool `json:"raw_prefix"`
+	Prefix    int  `json:"prefix"`
 }
 
 // decimal4 renders v * 0.0001 exactly.
@@ -122,6 +126,22 @@ func check(c Case, o *stats.Obs) error {
 	need := 19
 	if b.WithH {
 		need = 21
+	}
+	if c.RawPrefix {
+		full := b.Frame()
+		if c.Prefix < 0 || c.Prefix >= need+6 || c.Prefix > len(full) {
+			o.Skip = true
+			return nil
+		}
+		frame := full[:c.Prefix]
+		if f, err := decodeDirect(frame, typ, lv); err == nil {
+			o.Key = "truncated-accepted"
+			return fmt.Errorf("type %d frame cut to its first %d bytes (a complete one has at least %d) was accepted: %+v (bytes %x)", typ, c.Prefix, need+6, *f, frame)
+		}
+		o.NonTrivial = true
+		o.Class(fmt.Sprintf("raw-prefix-%d", typ))
+		o.Hash = stats.Hash64(frame, []byte{1})
+		return nil
 	}
 	if c.Cut > 0 {
 		if c.Cut >= need {
@@ -260,7 +280,14 @@ func gen1(t *rapid.T) Case {
 		}
 	}
 	c := Case{Msg: b, Debug: rapid.Bool().Draw(t, "debug")}
-	switch rapid.IntRange(0, 9).Draw(t, "variant") {
+	switch rapid.IntRange(0, 11).Draw(t, "variant") {
+	case 10, 11:
+		need := 19
+		if b.WithH {
+			need = 21
+		}
+		c.RawPrefix = true
+		c.Prefix = rapid.IntRange(0, need+5).Draw(t, "prefix")
 	case 0, 1:
 		need := 19
 		if b.WithH {
